@@ -73,3 +73,22 @@ Theorem C02_profile_safe_for_configured_train :
   In rv rvs -> present rv ->
   eval_speed (p_speed_points q) x <= rv_speed_max rv.
 Proof. exact config_profile_safe. Qed.
+
+(* (imported here, after the statements above, to keep their name resolution unchanged) *)
+From AltModel Require Import Interp Powertrain Loco Consist Resist Braking TrainStep TrainEnergy TrainFull WholeSim.
+From AltProofs Require Import ConsistP TrainFullP TimedTraceP.
+
+(* ---- a DISPATCHED train (SpeedLimitTrainSim::walk_timed_path, model WholeSim.sl_timed_walk tied to the real function by
+   check C11; proofs/TimedTraceP.v): the path its final walk() runs on was built from PathTpc::new by the successive
+   extend_path calls and nothing else, hence the enforced limit at every position is at most the train's own maximum and at most every posted restriction
+   covering the position ---- *)
+Theorem C02_dispatched_train : forall fuel_bp fuel_steps (net : list LinkR) (tp : TPR) tl rp fmax fb st cache (con : ConsistR) x',
+  sl_timed_walk fuel_bp fuel_steps net tp tl rp fmax fb st cache con = Ok x' ->
+  exists (w : TimedSim (F:=R)) parts,
+    extend_many net (new_path tp) parts = Ok (tw_path w) /\
+    sl_full_walk fuel_steps (env_of_path (tw_path w) rp) (tw_pts w) (path_offset_end (tw_path w)) fmax (tw_x w) = Ok x' /\
+    (route_ok net tp (concat parts) -> forall x, 0 <= x ->
+       let P := eval_speed (p_speed_points (tw_path w)) x in
+       let sets := route_sets net tp (concat parts) in
+       P <= tp_speed_max tp /\ (forall v, posted tp 0 sets x v -> P <= v) /\ (P = tp_speed_max tp \/ posted tp 0 sets x P)).
+Proof. exact sl_timed_walk_profile. Qed.
